@@ -1,4 +1,73 @@
 (* C19 — pool events: the ownership invariant says no int slice is returned to the pool twice *)
+open Model
+type string = Stdlib.String.t  (* Model defines Coq's string inductive; keep OCaml's name *)
 open Proto
 let () =
   register "poolev" (fun _ -> { model = "double=0"; spec = "double=0"; cls = "" })
+
+(* progm <dt> <ops> : histories with MASKS.  The mask of a tensor lives in storage exactly like its
+   data (a slice view's mask is the window mask[start:end] of its parent's, Clone copies it, lazy
+   transposition reads it through the strides), so the MODEL runs every structural operation twice:
+   on the store of the values and on a SHADOW store holding the mask bits, plus a masked flag per
+   tensor.  ops: new | setmask:<t>:<bits> (base tensors, before any slicing) | resetmask:<t>:<0|1> |
+   slice | clone | T | UT | ret.  Observation per step: status T<i>[shape|L:values|K:mask bits or -] *)
+let () =
+  register2 "progm" (fun a impl ->
+      let dt = a.(0) in
+      let ops = Array.of_list (Prog.split_ops a.(1)) in
+      let isteps = Prog.split_steps impl in
+      let m = ref (empty_store : z store) and s = ref (empty_store : z store) in
+      let masked : (int, unit) Hashtbl.t = Hashtbl.create 8 in
+      let dead : (int, unit) Hashtbl.t = Hashtbl.create 8 in
+      let out = ref [] in
+      let stop = ref false in
+      let cellstr = function Ok v -> string_of_int (pv dt v) | Err -> "E" | Panic -> "P" in
+      let obs () =
+        let n = int_of_nat (ntens_model !m) in
+        String.concat "" (List.init n (fun i ->
+            if Hashtbl.mem dead i then Printf.sprintf " T%d[_|dead]" i else
+            let sh = (match get_t !m (nat_of_int i) with Some d -> d.d_ap.shp | None -> []) in
+            let l = List.map cellstr (logical !m (nat_of_int i)) in
+            let k = if Hashtbl.mem masked i then
+                String.concat "" (List.map (function Ok v -> if int_of_z v <> 0 then "1" else "0" | Err -> "E" | Panic -> "P")
+                                    (logical !s (nat_of_int i)))
+              else "-" in
+            Printf.sprintf " T%d[%s|L:%s|K:%s]" i (fzs sh) (if l = [] then "_" else String.concat "," l)
+              (if k = "" then "_" else k))) in
+      Array.iteri (fun i o ->
+          if not !stop then begin
+            let f = Prog.fields o in
+            let istep = if i < Array.length isteps then isteps.(i) else "" in
+            let t1 () = int_of_string f.(1) in
+            let status =
+              match f.(0) with
+              | "ret" -> Hashtbl.replace dead (t1 ()) (); "ok"
+              | "setmask" | "resetmask" ->
+                (match get_t !s (nat_of_int (t1 ())) with
+                 | None -> "panic"
+                 | Some d ->
+                   let n = int_of_z d.d_len in
+                   let bits = if f.(0) = "setmask"
+                     then List.init (String.length f.(2)) (fun j -> if f.(2).[j] = '1' then z_of_int 1 else Z0)
+                     else List.init n (fun _ -> z_of_int (int_of_string f.(2))) in
+                   (match set_window !s d bits with
+                    | Some s' -> s := s'; Hashtbl.replace masked (t1 ()) (); "ok"
+                    | None -> "panic"))
+              | _ ->
+                Prog.cur_model := !m;
+                let op = Prog.parse_op o istep in
+                let sop = (match op with
+                    | ZBase (ONew (ord, sh, data)) -> ZBase (ONew (ord, sh, List.map (fun _ -> Z0) data))
+                    | x -> x) in
+                let (m', r) = zstep_model !m op in
+                let (s', _) = zstep_model !s sop in
+                m := m'; s := s';
+                (match r, op with
+                 | RNew t, (ZBase (OSlice (src, _, _)) | ZBase (OClone src)) ->
+                   if Hashtbl.mem masked (int_of_nat src) then Hashtbl.replace masked (int_of_nat t) ()
+                 | _ -> ());
+                Prog.status_str dt r in
+            if status = "panic" then begin out := "panic" :: !out; stop := true end
+            else out := (status ^ obs ()) :: !out
+          end) ops;
+      { model = String.concat " # " (List.rev !out); spec = "-"; cls = "" })
